@@ -5,7 +5,7 @@
 (*              stream writer with its badKey flag and its remembered offset  *)
 (*   reader   - value of key = data[off[rank(key)-1] .. off[rank(key)] or end) *)
 (*   merge    - container/heap over one item per input (Init, Pop, Push+Fix)  *)
-(*   version  - files selected by min <= key <= max                           *)
+(*   version  - files selected by min <= key <= max, level by level            *)
 (* TLC enumerates every sequence of builder operations (Add / stream, any key *)
 (* of Keys in any order, any value of Vals) for NFiles files and checks, once *)
 (* all files are closed, that the transcription answers exactly what the      *)
@@ -86,9 +86,19 @@ ImplMerge(its) ==
       pq0 == [j \in 1..Len(live) |-> ItemAt(its, live[j], 1)]
   IN Drain(its, HeapInit(pq0, Len(pq0) \div 2), <<>>)
 
-(* version.go FindFiles *)
-ImplFind(k) == {f \in 1..NFiles : ~ib[f].first /\ KLeq(ib[f].minKey, k) /\
-                                  (IF "find_exclusive_max" \in Dev THEN KLess(k, ib[f].maxKey) ELSE KLeq(k, ib[f].maxKey))}
+(* version.go FindFiles: level by level, every file of the level whose [minKey, maxKey] holds the key. *)
+(* lv = the level of each file (0..2); the files of a level sit in a map, so a scan that stops at the  *)
+(* first hit of a level (Deviation find_one_per_level: "the files of a compacted level do not overlap") *)
+(* answers ANY one of the level's covering files.  ImplFinds = the set of possible answers.             *)
+InRange(f, k) == ~ib[f].first /\ KLeq(ib[f].minKey, k) /\
+                 (IF "find_exclusive_max" \in Dev THEN KLess(k, ib[f].maxKey) ELSE KLeq(k, ib[f].maxKey))
+CoverIn(k, lv, n) == {f \in 1..NFiles : lv[f] = n /\ InRange(f, k)}
+OneOf(S) == IF S = {} THEN {{}} ELSE {{f} : f \in S}
+ImplFinds(k, lv) ==
+  IF "find_one_per_level" \in Dev
+  THEN {CoverIn(k, lv, 0) \cup a \cup b : a \in OneOf(CoverIn(k, lv, 1)), b \in OneOf(CoverIn(k, lv, 2))}
+  ELSE {CoverIn(k, lv, 0) \cup CoverIn(k, lv, 1) \cup CoverIn(k, lv, 2)}
+LevelMaps == [1..NFiles -> 0..2]
 
 -----------------------------------------------------------------------------
 MCInit ==
@@ -127,7 +137,7 @@ MCAbort ==
 MCClose ==
   /\ cur <= NFiles /\ ~sw.active /\ bld[cur].ks # <<>>
   /\ tab' = Put(tab, cur, [ks |-> bld[cur].ks, vs |-> bld[cur].vs])
-  /\ ver' = Put(ver, cur, [ks |-> bld[cur].ks, vs |-> bld[cur].vs])
+  /\ ver' = Put(ver, cur, [ks |-> bld[cur].ks, vs |-> bld[cur].vs, lvl |-> 0])
   /\ bld' = IF cur < NFiles THEN Put([bld EXCEPT ![cur].open = FALSE], cur + 1, NewBuilder)
             ELSE [bld EXCEPT ![cur].open = FALSE]
   /\ cur' = cur + 1 /\ UNCHANGED <<big, ib, sw>>
@@ -159,7 +169,11 @@ MergeAgrees ==
       IN /\ NonDescending([i \in 1..Len(out) |-> out[i][1]])
          /\ SortSeq(out, Lt) = SortSeq(FoldLeft(LAMBDA acc, it : acc \o it, <<>>, its), Lt)
 \* file selection: a file that holds the key is always selected; selection = range test of the reference
-FindAgrees == \A k \in Keys : /\ ImplFind(k) \cap Closed = {f \in DOMAIN ver : Covers(f, k)}
-                              /\ Holding(k) \subseteq ImplFind(k)
+\* (once all files are closed: under every placement of the files in levels 0..2 and every answer the map
+\* order allows; before: all files in level 0 -- cost; a closed file never changes afterwards)
+FindAgrees == \A lv \in (IF cur = NFiles + 1 THEN LevelMaps ELSE {[f \in 1..NFiles |-> 0]}) :
+               \A k \in Keys : \A S \in ImplFinds(k, lv) :
+                 /\ S \cap Closed = {f \in DOMAIN ver : Covers(f, k)}
+                 /\ Holding(k) \subseteq S
 RefSelectionComplete == SelectionComplete
 =============================================================================
